@@ -4,10 +4,10 @@ package main
 
 import (
 	"fmt"
-	"sort"
 	"go/token"
 	"go/types"
 	"regexp"
+	"sort"
 	"strings"
 
 	"golang.org/x/tools/go/ssa"
